@@ -53,7 +53,7 @@ def floors(tier):
     return {'evaluations': 10000, 'distinct_nontrivial': 1500, 'outside_targets_requested': 1500,
             'inside_reads_confirmed': 800, 'audit_open_events': 800, 'via_latex_to_text': 1000,
             'histkeys:escape_kind': 6, 'reused_object_calls': 2000, 'reconfigurations': 500,
-            'respelled_directory_reads': 5000}
+            'respelled_directory_reads': 5000, 'histkeys:converter_options': 4}
 
 
 def setup(rec):
@@ -75,7 +75,9 @@ class Layout(object):
         for d in (b + '2', b + '-x', 'other', 'other/deep'):
             os.makedirs(os.path.join(root, d))
         # inside files
-        for rel in ('in.tex', 'sub/deep.tex', 'noext', 'sub/subsub/x.latex', 'both', 'both.tex', 'l.latex'):
+        for rel in ('in.tex', 'sub/deep.tex', 'noext', 'sub/subsub/x.latex', 'both', 'both.tex', 'l.latex',
+                    # base names with inner dots, requested without their extension
+                    'v1.2.tex', 'sub/fig.1.latex', 'a.b.c'):
             self.write(os.path.join(b, rel), 'INSIDE')
         # outside files
         for rel in (b + '2/sib.tex', b + '2/in.tex', b + '-x/in.tex', 'other/out.tex', 'other/deep/d.tex', 'secret',
@@ -98,10 +100,11 @@ class Layout(object):
         sl(os.path.join(self.base, 'lnk.tex'), os.path.join(self.base, 'chain.tex'))         # symlink -> symlink -> outside
         sl('../..', os.path.join(self.base, 'sub', 'up2'))                                  # dir symlink to the parent of base
         sl('..', os.path.join(self.base, 'sub', 'self'))                                    # dir symlink back to base (inside)
+        sl('v1.2', os.path.join(self.base, 'dotlnk'))                                       # dot-free link -> dotted name that only exists with .tex
         sl(os.path.join(root, 'other', 'noext'), os.path.join(self.base, 'chain2.latex'))   # only with .latex -> outside
         self.components = ['in', 'in.tex', 'sub', 'deep', 'deep.tex', 'subsub', 'x', '..', '.', 'noext', 'both', 'l',
                            'lnk', 'lnk.tex', 'lnkdir', 'out', 'out.tex', 'lnkin', 'ext', 'ext2', 'rel', 'up', 'sib', 'chain', 'chain2',
-                           'up2', 'self',
+                           'up2', 'self', 'v1.2', 'fig.1', 'a.b.c', 'dotlnk',
                            'sib.tex', b, b + '2', b + '-x', b + '.tex', 'other', 'secret', 'backin', 'tosub', 'd', '']
         self.base_spellings = [self.base, self.base + '/', os.path.join(root, 'other', 'backin'),
                                os.path.join(root, b + '2', '..', b), os.path.join(self.base, 'sub', '..'),
@@ -182,7 +185,12 @@ def evaluate(lay, base, name, via, rec, l2t=None):
     must_read = bool(existing) and len(files) == len(existing) and not outside_files and \
         inside(rb, os.path.realpath(os.path.join(base, name)))
     if l2t is None:
-        l2t = LatexNodes2Text()
+        # converter options that do not concern files must not change which file is read
+        optsets = [{}, {'keep_braced_groups': True}, {'math_mode': 'verbatim', 'keep_comments': True},
+                   {'strict_latex_spaces': True, 'keep_braced_groups': True, 'keep_braced_groups_minlen': 0}]
+        oi = (len(name) + len(via)) % len(optsets) if via != 'read' else 0
+        rec.hist('converter_options', str(oi))
+        l2t = LatexNodes2Text(**optsets[oi])
         l2t.set_tex_input_directory(base, strict_input=True)
     del OPENED[:]
     HOOK['on'] = True
